@@ -1,6 +1,9 @@
 package c16
 
 import (
+	"fmt"
+
+	"github.com/emmansun/gmsm/pkcs7"
 	"testing"
 
 	"pgregory.net/rapid"
@@ -110,4 +113,108 @@ func TestC16_SignedLengths(t *testing.T) {
 			}
 		}
 	}, func(s sdSpec, r *h.Rec) error { return checkSignedComplete(s, r, s.Len%25 == 0) })
+}
+
+// ---------------------------------------------------------------- wrong content / digest supplied by the verifier
+
+type wrongCase struct {
+	Spec sdSpec
+	How  int    // 0 flip a bit, 1 drop the last byte, 2 append a byte, 3 empty, 4 other bytes of the same length
+	At   uint64 // selects the position / the other bytes
+}
+
+var wrongNames = []string{"bit-flipped", "truncated", "extended", "emptied", "other-same-length"}
+
+func wrongValue(orig []byte, how int, at uint64) []byte {
+	w := append([]byte{}, orig...)
+	switch how {
+	case 0:
+		if len(w) == 0 {
+			return []byte{1}
+		}
+		bit := at % uint64(8*len(w))
+		w[bit/8] ^= 1 << (bit % 8)
+	case 1:
+		if len(w) == 0 {
+			return []byte{0}
+		}
+		w = w[:len(w)-1]
+	case 2:
+		w = append(w, byte(at))
+	case 3:
+		if len(w) == 0 {
+			return []byte{0}
+		}
+		w = []byte{}
+	case 4:
+		if len(w) == 0 {
+			return []byte{2}
+		}
+		w = gen.Fill(gen.Mix(at, 0x0713), len(w))
+		if string(w) == string(orig) {
+			w[0] ^= 0xff
+		}
+	}
+	return w
+}
+
+// checkWrongContent: a message verifies only against what was signed: the
+// content (or digest) the verifier supplies for a detached (digest-only)
+// message, or puts in place of the attached content, must be rejected when it
+// is not the signed one.
+func checkWrongContent(c wrongCase, r *h.Rec) error {
+	s := c.Spec
+	s.labels(r)
+	r.Label("wrong:%s", wrongNames[c.How])
+	r.NT()
+	var out error
+	withRand(gen.Mix(s.Seed, 0x5161), func() {
+		b, err := buildSigned(s)
+		if err != nil {
+			out = fmt.Errorf("the signing API refused a combination of the domain: %v", err)
+			return
+		}
+		try := func(what string, value []byte, asDigest bool) error {
+			p7, err := pkcs7.Parse(b.der)
+			if err != nil {
+				return fmt.Errorf("Parse: %v", err)
+			}
+			p7.Content = value
+			if asDigest {
+				err = p7.VerifyAsDigest()
+			} else {
+				err = p7.Verify()
+			}
+			if err == nil {
+				return fmt.Errorf("message verifies against a %s that was not signed: supplied %x, signed content %x (digest %x); spec=%s message=%x",
+					what, value, b.content, b.digest, s.Key(), b.der)
+			}
+			return nil
+		}
+		switch s.Mode {
+		case modeDigest:
+			out = try("digest", wrongValue(b.digest, c.How, c.At), true)
+			if out == nil {
+				out = try("content", wrongValue(b.content, c.How, c.At), false)
+			}
+		default:
+			out = try("content", wrongValue(b.content, c.How, c.At), false)
+			if out == nil {
+				d := myHash(s.Signers[0].Digest, b.content)
+				out = try("digest", wrongValue(d, c.How, c.At), true)
+			}
+			if out == nil && len(b.content) != len(myHash(s.Signers[0].Digest, b.content)) {
+				// the content itself is not its digest
+				out = try("digest (the content itself)", b.content, true)
+			}
+		}
+	})
+	return out
+}
+
+func TestC16_SignedWrongContent(t *testing.T) {
+	h.Prop(t, h.P{Name: "signed-wrong-content", Quick: 500, Thorough: 8000},
+		func(t *rapid.T) wrongCase {
+			return wrongCase{Spec: drawSigned(t), How: rapid.IntRange(0, 4).Draw(t, "how"), At: rapid.Uint64().Draw(t, "at")}
+		}, checkWrongContent)
 }
